@@ -76,6 +76,14 @@ def make_env(cfg: dict[str, Any] | None = None, loader=None, base: type = Enviro
     return env
 
 
+def safe_str(exc: BaseException) -> str:
+    """str(exc) that cannot fail: formatting a Liquid error runs library code (line / column context), which a defect can break."""
+    try:
+        return str(exc)
+    except Exception as e:  # noqa: BLE001
+        return f"<{type(exc).__name__}: str() raised {type(e).__name__}: {e}>"
+
+
 class Outcome:
     """Result of one API call at the boundary: value or exception (class + liquid-ness)."""
 
@@ -104,7 +112,7 @@ class Outcome:
         if self.ok:
             v = self.value
             return ["ok", v if not isinstance(v, str) or len(v) < 300 else v[:300] + "..."]
-        return ["err", self.err_class, str(self.exc)[:200]]
+        return ["err", self.err_class, safe_str(self.exc)[:200]]
 
 
 def call(fn: Callable[..., Any], *a: Any, **k: Any) -> Outcome:
